@@ -1056,3 +1056,53 @@ def rule_G11(prog):
                    "are not on a common loop (and the function does not call itself): a run of ops that expand to nothing ends "
                    "the iteration early" % fn.path, file=fn.file, line=fn.line)
     return r
+
+
+# ------------------------------------------------------------------ G12: a zip is reversed side by side, not as a whole
+def rule_G12(prog):
+    r = RuleResult("G12", "`a.zip(b).rev()` pairs the items from the FRONT: Zip's double-ended iteration first cuts the longer "
+                          "side at its back to the common length.  Walking two ranges from their ends (common suffix) is "
+                          "`a.rev().zip(b.rev())`; a reversed zip (also behind skip/take/enumerate) is accepted only when both "
+                          "sides are ranges of the same written length")
+    from .guard import strip
+    from .cursor import lin, norm
+    for fn in prog.user_fns():
+        if not fn.mir or not (fn.module.startswith("algorithms") or fn.module.startswith("text") or fn.module in ("common", "utils", "iter", "udiff", "types")):
+            continue
+        m = fn.mir
+        for bb, t in m.calls():
+            c = m.callee(t) or {}
+            if c.get("method") != "rev" or c.get("trait") not in ("std::iter::Iterator", "std::iter::DoubleEndedIterator"):
+                continue
+            sty = str(c.get("path_args") or c.get("self_ty") or "")
+            if "std::iter::Zip<" not in sty:
+                continue
+            r.instances += 1
+            # find the zip call in the receiver chain
+            term = strip(m.expand(m.resolve_operand(t["args"][0]), depth=4))
+            same = False
+            for _ in range(6):
+                if isinstance(term, tuple) and term and term[0] == "call":
+                    if term[1].endswith("::zip") or "::zip::<" in term[1]:
+                        lens = []
+                        for a in term[2][:2]:
+                            a = strip(m.expand(a, depth=3))
+                            if isinstance(a, tuple) and a and a[0] == "aggregate" and "start" in a[2] and "end" in a[2]:
+                                d = dict(norm(lin(m, a[2]["end"])))
+                                for k_, v_ in norm(lin(m, a[2]["start"])).items():
+                                    d[k_] = d.get(k_, 0) - v_
+                                lens.append(tuple(sorted((k_, v_) for k_, v_ in d.items() if v_)))
+                            else:
+                                lens.append(None)
+                        same = len(lens) == 2 and lens[0] is not None and lens[0] == lens[1]
+                        break
+                    term = strip(term[2][0]) if term[2] else None
+                else:
+                    break
+            r.ob(same, "%s: `%s` (line %d): both sides have the same written length: %s" % (fn.path, t.get("src", "rev")[:60], t["line"], same))
+            if not same:
+                r.find(fn.path, "reversed-zip", "`%s` reverses a zip of two sequences that are not shown to have the same length: the "
+                       "pairs are aligned at the front (the longer side loses its tail), not at the ends -- items at equal "
+                       "distance from the END are `a.rev().zip(b.rev())`" % t.get("src", "zip(..).rev()")[:80],
+                       file=fn.file, line=t["line"])
+    return r
